@@ -209,6 +209,8 @@ class TimeRecurrence:
             self._format_number = 1
             # One repetition means the event only occurs on the start date
             if self._repetitions == 1:
+                if self._start_point is None:
+                    self._start_point = self._end_point
                 self._second_point = self._end_point = self._start_point
                 return
             if self._start_point is None or self._end_point is None:
